@@ -246,7 +246,9 @@ func (idx *Index) read(rootGoitPath string) error {
 
 func (idx *Index) write(rootGoitPath string) error {
 	indexPath := filepath.Join(rootGoitPath, "index")
-	f, err := os.Create(indexPath)
+	// write to a temporary file and rename it, so that an interrupted write never leaves a truncated index
+	tmpPath := indexPath + ".tmp"
+	f, err := os.Create(tmpPath)
 	if err != nil {
 		return fmt.Errorf("fail to create .goit/index: %w", err)
 	}
@@ -268,6 +270,12 @@ func (idx *Index) write(rootGoitPath string) error {
 	}
 	if _, err := f.Write(data); err != nil {
 		return fmt.Errorf("fail to write variable-length encoding: %w", err)
+	}
+	if err := f.Close(); err != nil {
+		return fmt.Errorf("fail to write variable-length encoding: %w", err)
+	}
+	if err := os.Rename(tmpPath, indexPath); err != nil {
+		return fmt.Errorf("fail to create .goit/index: %w", err)
 	}
 
 	return nil
